@@ -305,7 +305,9 @@ static void* calloc_worker(void* arg) {
     int kind[3];
     for (int j = 0; j < 3; j++) {
       kind[j] = (int)(rng_u64(&r) % 5);
-      const uint64_t limbs = (rng_u64(&r) & 1) ? 1 + rng_u64(&r) % 5 : 30 + rng_u64(&r) % 12;
+      // sizes on both sides of the allocator's large-block threshold (128 KiB at N = 4096 is 4 limbs), a few size classes only
+      static const uint64_t LIMBS[] = {1, 3, 4, 5, 5, 8, 40, 40, 41};
+      const uint64_t limbs = LIMBS[rng_u64(&r) % ARRAY_LEN(LIMBS)];
       switch (kind[j]) {
         case 0: obj[j] = new_vec_znx_dft(c->mod, limbs); len[j] = bytes_of_vec_znx_dft(c->mod, limbs); break;
         case 1: obj[j] = new_vec_znx_big(c->mod, limbs); len[j] = bytes_of_vec_znx_big(c->mod, limbs); break;
@@ -313,9 +315,14 @@ static void* calloc_worker(void* arg) {
         case 3: { const uint64_t nr = 1 + limbs % 7, nc = 1 + limbs % 5; obj[j] = new_vmp_pmat(c->mod, nr, nc); len[j] = bytes_of_vmp_pmat(c->mod, nr, nc); break; }
         default: len[j] = (size_t)(limbs * c->N * 8); obj[j] = spqlios_alloc(len[j]); break;
       }
-      memset(obj[j], (int)(0x40 + ((c->seed + (uint64_t)j) & 0x3F)), len[j]);
+      {  // the caller's pattern at every 509th byte and at both ends (cheap enough for thousands of megabyte-sized objects)
+        const uint8_t pat = (uint8_t)(0x40 + ((c->seed + (uint64_t)j) & 0x3F));
+        uint8_t* q = obj[j];
+        for (size_t i = 0; i < len[j]; i += 509) q[i] = pat;
+        if (len[j]) q[len[j] - 1] = pat;
+      }
     }
-    sched_yield();
+    if ((it & 7) == 0) sched_yield();
     for (int j = 0; j < 3; j++) {
       const uint8_t want = (uint8_t)(0x40 + ((c->seed + (uint64_t)j) & 0x3F));
       const uint8_t* p = obj[j];
@@ -346,7 +353,7 @@ static void allocation_case(uint64_t N, int T, unsigned rep) {
   pthread_barrier_t bar;
   pthread_barrier_init(&bar, 0, (unsigned)T);
   for (int t = 0; t < T; t++) {
-    c[t] = (calloc_t){mod, N, rng_u64(r), N <= 1024 ? 300 : 60, 0, 0, &bar};
+    c[t] = (calloc_t){mod, N, rng_u64(r), N <= 1024 ? 500 : 3000, 0, 0, &bar};
     pthread_create(&tid[t], 0, calloc_worker, &c[t]);
   }
   uint64_t objects = 0, wrong = 0;
